@@ -195,6 +195,52 @@ Definition sum_rel {A B} (RR : A -> B -> Prop) (x : A + ekind) (y : B + ekind) :
   | _, _ => False
   end.
 
+(* the bulk items the driver API produces: no sort, no skip (collection.go
+   BulkWrite builds them from the Insert/Replace/Update/Delete models) *)
+Definition driver_op (op : bulk_op) : Prop :=
+  match op with
+  | BInsert _ => True
+  | BReplace _ _ sort _ => sort = None
+  | BUpdate _ _ sort _ skip _ _ => sort = None /\ skip = 0
+  | BDelete _ sort skip _ => sort = None /\ skip = 0
+  end.
+
+Lemma sc_set_set l h x y : sc_set (sc_set l h x) h y = sc_set l h y.
+Proof.
+  induction l as [|[k z] t IH].
+  - cbn [sc_set]. rewrite handle_eqb_refl. reflexivity.
+  - cbn [sc_set]. destruct (handle_eqb k h) eqn:E; cbn [sc_set].
+    + rewrite handle_eqb_refl. reflexivity.
+    + rewrite E, IH. reflexivity.
+Qed.
+
+Lemma sc_get_set_same l h x : sc_get (sc_set l h x) h = Some x.
+Proof.
+  induction l as [|[k z] t IH].
+  - cbn [sc_set sc_get]. rewrite handle_eqb_refl. reflexivity.
+  - cbn [sc_set]. destruct (handle_eqb k h) eqn:E; cbn [sc_get].
+    + rewrite handle_eqb_refl. reflexivity.
+    + rewrite E. exact IH.
+Qed.
+
+Lemma ns_get_set_same l h x : ns_get (ns_set l h x) h = Some x.
+Proof.
+  induction l as [|[k z] t IH].
+  - cbn [ns_set ns_get]. rewrite handle_eqb_refl. reflexivity.
+  - cbn [ns_set]. destruct (handle_eqb k h) eqn:E; cbn [ns_get].
+    + rewrite handle_eqb_refl. reflexivity.
+    + rewrite E. exact IH.
+Qed.
+
+Lemma ns_get_set_other l h k x : handle_eqb h k = false -> ns_get (ns_set l h x) k = ns_get l k.
+Proof.
+  intro Hne. induction l as [|[j z] t IH].
+  - cbn [ns_set ns_get]. rewrite Hne. reflexivity.
+  - cbn [ns_set]. destruct (handle_eqb j h) eqn:E; cbn [ns_get].
+    + apply handle_eqb_eq in E. subst j. rewrite Hne. reflexivity.
+    + destruct (handle_eqb j k); [reflexivity|exact IH].
+Qed.
+
 Section RefineTxn.
   Set Default Proof Using "Type".
   Variable matchf : doc -> doc -> res bool.
@@ -929,6 +975,140 @@ Section RefineTxn.
       + apply ns_ok_set.
         * apply ns_ok_filter. eapply ns_ok_mono; eauto.
         * rewrite oplog_not_user. discriminate.
+  Qed.
+
+  (* ---------------------------------------------------------------- *)
+  (* Bulk: one item on the working copy.  The spec state s need not be the
+     abstraction of the clone catalog c (the clone may contain an empty
+     collection created by an item that changed nothing, or documents replaced
+     by equal ones): only the target collection has to agree. *)
+
+  Definition chg (op : bulk_op) (tr : tresult) : bool := 0 <? bulk_changes op tr.
+
+  Lemma len_nonneg {A} (l : list A) : 0 <= len l.
+  Proof. unfold len. lia. Qed.
+
+  Lemma chg_ups op m l sd e : chg op (mkT m l (Some sd) e) = true.
+  Proof.
+    unfold chg, bulk_changes. cbn [t_modified t_upserted]. apply Z.ltb_lt.
+    pose proof (len_nonneg l). lia.
+  Qed.
+
+  Lemma chg_cons op m x t u e : chg op (mkT m (x :: t) u e) = true.
+  Proof.
+    unfold chg, bulk_changes. cbn [t_modified t_upserted t_matched]. apply Z.ltb_lt.
+    assert (0 < len (x :: t)) by (unfold len; cbn [List.length]; lia).
+    destruct u; [lia|]. destruct op; pose proof (len_nonneg m); lia.
+  Qed.
+
+  Lemma chg_nil op m e :
+    match op with BDelete _ _ _ _ => False | _ => True end -> chg op (mkT m [] None e) = false.
+  Proof. destruct op; intro H; try contradiction; reflexivity. Qed.
+
+  Lemma chg_del q sort skip limit m e :
+    chg (BDelete q sort skip limit) (mkT m [] None e) = (0 <? len m).
+  Proof. reflexivity. Qed.
+
+  Definition wrel (c : catalog) (g : gen) (s : sstate) (h : handle) : Prop :=
+    coll_or_new s h = abs_coll (ns_or_new c h) /\ ss_oid s = g_oid g /\ good (g_did g) (ns_or_new c h).
+
+  Definition w_out (ch : tresult -> bool) (c : catalog) (g : gen) (s : sstate) (h : handle)
+             (x : wres) (y : sstate * (sresult + ekind)) : Prop :=
+    let '(w, r) := x in
+    let '(s1, r') := y in
+    ss_oid s1 = g_oid (w_gen w) /\ g_did g <= g_did (w_gen w) /\
+    match r, r' with
+    | inl tr, inl sr =>
+        tres_rel tr sr /\ good (g_did (w_gen w)) (w_ns w) /\
+        if ch tr then ss_colls s1 = sc_set (ss_colls s) h (abs_coll (w_ns w))
+        else ss_colls s1 = ss_colls s /\ abs_coll (w_ns w) = abs_coll (ns_or_new c h)
+    | inr e, inr e' => e = e' /\ ss_colls s1 = ss_colls s
+    | _, _ => False
+    end.
+
+  Lemma upd_wsim c g s h q u sort skip limit upsert afs :
+    wrel c g s h ->
+    w_out (chg (BUpdate q u sort upsert skip limit afs)) c g s h
+      (t_update matchf applyf extractf (open_w c g h) h q u sort upsert skip limit afs now)
+      (s_upd_core s h q u sort skip limit upsert afs).
+  Proof.
+    intros [Hcn [Hoid [Hinv [Hid Hlt]]]]. unfold s_upd_core, t_update. rewrite Hcn, Hoid.
+    cbn [open_w w_ns w_gen w_oplog w_clock].
+    set (n0 := ns_or_new c h) in *.
+    set (op := BUpdate q u sort upsert skip limit afs).
+    pose proof (sim_update matchf applyf n0 (g_did g) q u sort skip limit afs now Hinv Hlt) as Hsim.
+    pose proof (s_update_no_upsert (abs_coll n0) q u sort skip limit afs) as Hnoup.
+    pose proof (s_update_unchanged matchf applyf now (abs_coll n0) q u sort skip limit afs) as Hunch.
+    destruct (coll_update matchf applyf n0 (g_did g) q u sort skip limit afs now) as [ns' [r|e]] eqn:Hcu;
+      destruct (s_update matchf applyf now (abs_coll n0) q u sort skip limit afs) as [[sc' sr]|e'];
+      cbn [out_rel] in Hsim; try contradiction.
+    - destruct Hsim as [Habs [Hm [Hmd Hup]]].
+      specialize (Hnoup sc' sr eq_refl). specialize (Hunch sc' sr eq_refl).
+      destruct (coll_update_inv matchf applyf _ _ _ _ _ _ _ _ _ _ _ Hinv Hid Hlt Hcu)
+        as [Hinv' [Hid' Hlt']].
+      destruct (r_matched r) as [|m0 mr] eqn:Hrm.
+      + rewrite <- Hm. cbn [map].
+        change (len (@nil sdoc)) with 0. rewrite Z.add_0_r. cbn [g_did g_oid].
+        cbn [List.length] in Hlt'. change (Z.of_nat 0) with 0 in Hlt'. rewrite Z.add_0_r in Hlt'.
+        assert (Hr : r = empty_result).
+        { apply (coll_update_inl matchf applyf) in Hcu.
+          destruct Hcu as [[_ [_ Hr]]|[matched [newl [chs [ixs [ixs' [_ [Hne [_ [_ [_ [_ [_ Hmm]]]]]]]]]]]]].
+          - exact Hr.
+          - exfalso. apply Hne. rewrite <- Hmm. exact Hrm. }
+        destruct upsert.
+        * subst sc'.
+          pose proof (sim_upsert matchf applyf extractf ns' (g_did g) q None (Some u) afs
+                       (gen_oid (g_oid g)) now Hinv' Hlt') as Hs2.
+          destruct (coll_upsert matchf applyf extractf ns' (g_did g) q None (Some u) afs
+                      (gen_oid (g_oid g)) now) as [ns'' [r2|e2]] eqn:Hcup;
+            destruct (s_upsert matchf applyf extractf now (abs_coll ns') q None (Some u) afs
+                        (gen_oid (g_oid g))) as [[sc'' sr']|e2'];
+            cbn [out_rel] in Hs2; try contradiction.
+          -- destruct Hs2 as [Habs2 Hrel2].
+             destruct (coll_upsert_inv matchf applyf extractf _ _ _ _ _ _ _ _ _ _ Hinv' Hid' Hlt' Hcup)
+               as [Hinv2 [Hid2 Hlt2]].
+             destruct (coll_upsert_docs matchf applyf extractf _ _ _ _ _ _ _ _ _ _ Hcup)
+               as [d' [_ [_ Hr2]]]. subst r2. cbn [r_upserted].
+             match goal with |- context [append_all ?w1 h ?o ?l ?chs] =>
+               destruct (append_all_facts h o l w1 chs) as [F1 [F2 F3]];
+               set (wa := append_all w1 h o l chs) in * end.
+             cbn [w_ns w_gen g_oid g_did] in F1, F2, F3. clearbody wa.
+             unfold w_out. cbn [ss_colls ss_oid]. rewrite chg_ups.
+             split; [rewrite F2; reflexivity|]. split; [lia|].
+             split; [destruct Hrel2 as [R1 [R2 R3]]; split; [|split]; assumption|].
+             split.
+             ++ rewrite F1. apply (good_mono matchf (g_did g + 1)); [|lia]. split; [|split]; auto.
+             ++ rewrite F1, Habs2. reflexivity.
+          -- subst e2'. unfold w_out. cbn [w_gen ss_colls ss_oid g_did g_oid].
+             split; [reflexivity|]. split; [lia|]. split; reflexivity.
+        * subst r. cbn [r_modified r_upserted map option_map] in *. rewrite <- Hmd.
+          unfold w_out. cbn [w_gen w_ns ss_colls ss_oid g_did g_oid].
+          rewrite chg_nil by exact I.
+          split; [exact Hoid|]. split; [lia|].
+          split; [split; [|split]; auto|]. split; [split; [|split]; auto|].
+          split; [reflexivity|]. rewrite Habs. apply Hunch. symmetry. exact Hmd.
+      + rewrite <- Hm. cbn [map].
+        match goal with |- context [append_all ?w1 h ?o ?l ?chs] =>
+          destruct (append_all_facts h o l w1 chs) as [F1 [F2 F3]];
+          set (wa := append_all w1 h o l chs) in * end.
+        cbn [w_ns w_gen g_oid g_did] in F1, F2, F3.
+        assert (Htr : tres_rel (mkT (m0 :: mr) (r_modified r) None None) sr).
+        { split; [|split]; cbn [t_matched t_modified t_upserted option_map]; auto. }
+        assert (Hg : good (g_did (w_gen wa)) (w_ns wa)).
+        { rewrite F1.
+          apply (good_mono matchf (g_did g + Z.of_nat (List.length (m0 :: mr)))); [|unfold len in *; lia].
+          split; [|split]; auto. }
+        destruct (r_modified r) as [|x xs] eqn:Hrmod.
+        * rewrite <- Hmd. cbn [map]. unfold w_out. rewrite chg_nil by exact I.
+          cbn [ss_colls ss_oid].
+          split; [rewrite F2; exact Hoid|]. split; [unfold len in *; lia|].
+          split; [exact Htr|]. split; [exact Hg|].
+          split; [reflexivity|]. rewrite F1, Habs. apply Hunch. symmetry. exact Hmd.
+        * rewrite <- Hmd. cbn [map]. unfold w_out. rewrite chg_cons. cbn [ss_colls ss_oid].
+          split; [rewrite F2; reflexivity|]. split; [unfold len in *; lia|].
+          split; [exact Htr|]. split; [exact Hg|].
+          rewrite F1, Habs. reflexivity.
+    - subst e'. unfold w_out. cbn [w_gen]. split; [exact Hoid|]. split; [lia|]. split; reflexivity.
   Qed.
 
 End RefineTxn.
